@@ -3,7 +3,7 @@ import serverlib as sl
 import srvprops
 
 PROP = "C08"
-THEOREMS = ["C08_gate_fail_closed", "C08_alteration_exact", "C08_no_alteration_passthrough", "C08_attribution", "C08_whole_frame", "C08_client_accepts_only_valid", "C08_link_transparent", "C08_link_fail_closed", "C08_reply_is_correlated", "C08_outcome_accept_only"]
+THEOREMS = ["C08_gate_fail_closed", "C08_alteration_exact", "C08_no_alteration_passthrough", "C08_attribution", "C08_whole_frame", "C08_client_accepts_only_valid", "C08_link_transparent", "C08_link_fail_closed", "C08_reply_is_correlated", "C08_outcome_accept_only", "C08_concurrent_requests_transparent", "C08_concurrent_unanswered_fails", "C08_concurrent_fail_closed", "C08_concurrent_example"]
 
 
 LINK_NOTE = "Modulator-link stage: the real S2M/M2S dispatchers (crates/modulator/src/conn.rs) behind the real connection engine are fed raw byte chunks (handshakes with right/wrong/missing secret and version, the whole three-link vocabulary in each phase, payloads, scripted modulator outcomes) and compared chunk by chunk with Model/Link.v inside coqc (Conf/LinkConf.link_conf); the real S2mClient (crates/modulator/src/client.rs) is run against a scripted wire peer (sensible, contradictory, mis-correlated, malformed, missing replies, dropped links) and each call's result is compared with Model/Link.v's reply mapping (Conf/LinkConf.client_conf); a share of the server histories runs with the real S2M/M2S wire path between server and modulator (unix sockets), including histories in which the modulator process goes away (listener gone, links ended): every delegated decision must fail closed."
